@@ -64,6 +64,11 @@ def call(I, n: ast.Call, st: State) -> Iterator[tuple[State, Any]]:
 def apply(I, f: Any, pos: list, kw: dict, st: State, node: ast.AST | None = None) -> Iterator[tuple[State, Any]]:
     from verif.pyvc import lib
 
+    pos = [st.resolve(x) for x in pos]
+    kw = {k: st.resolve(v) for k, v in kw.items()}
+    if isinstance(f, SBound):
+        f = SBound(st.resolve(f.recv), f.name)
+
     if isinstance(f, SBuiltin):
         yield from lib.builtin(I, f.name, pos, kw, st)
         return
@@ -242,7 +247,7 @@ def call_repo(I, module: str, qualname: str, self_obj: Any, pos: list, kw: dict,
     except extract.ExtractionError:
         yield from opaque_call(I, key, pos, kw, st)
         return
-    if st.depth >= I.inline_depth or key in getattr(st, "stack", ()):
+    if st.depth >= I.inline_depth or (key in getattr(st, "stack", ()) and key not in getattr(I, "recursion_ok", ())):
         if key in getattr(I, "opaque_ok", ()):
             yield from opaque_call(I, key, pos, kw, st)
             return
